@@ -92,3 +92,26 @@ Proof.
   destruct (run d (parseSchemaDocument d (query_fuel input)) (query_fuel input) (pst_init input L ix)) as [doc s].
   simpl in H. destruct (perr_ s); exact H.
 Qed.
+
+(* ---- several sources: every source by itself is subject to the limit ---- *)
+Fixpoint schemas_under_limit (d : dev) (L : N) (ix : N) (srcs : list (bool * str)) (acc : sdoc) : pres sdoc :=
+  match srcs with
+  | [] => POk acc
+  | (bi, inp) :: tl =>
+    if (schema_tokens_consumed d ix bi inp <=? L)%N then
+      match parseSchema d 0 ix bi inp with
+      | PErr e => PErr e
+      | POk doc => schemas_under_limit d L (ix + 1)%N tl (merge_sdoc acc doc)
+      end
+    else PErr PLimit
+  end.
+
+Theorem parseSchemas_limit_exact : forall d L srcs, L <> 0%N ->
+  parseSchemas d L srcs = schemas_under_limit d L 0 srcs sdoc0.
+Proof.
+  intros d L srcs HL. unfold parseSchemas. generalize 0%N as ix, sdoc0 as acc.
+  induction srcs as [|[bi inp] tl IH]; intros ix acc; [reflexivity|].
+  cbn [parseSchemas_from schemas_under_limit]. rewrite parseSchema_limit_exact by exact HL.
+  destruct (schema_tokens_consumed d ix bi inp <=? L)%N; [|reflexivity].
+  destruct (parseSchema d 0 ix bi inp); [apply IH|reflexivity].
+Qed.
